@@ -6,13 +6,20 @@
 //!    2 i   poll future i (Ready -> its token becomes live)
 //!    3 i   drop the token obtained by future i
 //!    4 i   drop the (pending) future i
+//!    5 i   hand token i to Token::run on an idle connection (its transport never delivers a byte); the connection is polled once
+//!          and stays pending: the token is still in use (it counts as live)
+//!    3 i / 6 i   also drop that connection task (the client went away): only now is the slot free
 //!  observation per op: [live tokens, ready flag of the polled future (or 2), wake counters of all futures so far...]
 //! wg_run <tokens> <ops>: 1 = drop a token, 2 = (unused), 10+w = poll the shutdown future with a token drop forced into window w
 //!    (1 = before the poll, 2 = between Weak::upgrade and waker registration, 3 = after registration before the temporary
-//!    reference is dropped, 4 = after the poll).  observation per poll: [ready, total wakes, live tokens after]
+//!    reference is dropped, 4 = after the poll).  observation per poll: [ready, wakes received by the waker of the most recent poll (cumulative), live tokens after]
 use crate::proto::config;
 use crate::{arg, argn, Args};
-use fastcgi_server::async_io::{Runner, Token};
+use fastcgi_server::async_io::{Request, Runner, Token};
+use fastcgi_server::ExitStatus;
+use futures_util::future::BoxFuture;
+use futures_util::io::{AsyncRead, AsyncWrite};
+use std::io;
 use std::future::Future;
 use std::pin::Pin;
 use std::sync::atomic::{AtomicUsize, Ordering};
@@ -39,6 +46,29 @@ impl Wake for Count {
 
 type TokFut = Pin<Box<dyn Future<Output = Token>>>;
 
+/// a connection on which the client never sends anything
+struct IdleReader;
+impl AsyncRead for IdleReader {
+    fn poll_read(self: Pin<&mut Self>, _: &mut Context, _: &mut [u8]) -> Poll<io::Result<usize>> {
+        Poll::Pending
+    }
+}
+struct Sink;
+impl AsyncWrite for Sink {
+    fn poll_write(self: Pin<&mut Self>, _: &mut Context, b: &[u8]) -> Poll<io::Result<usize>> {
+        Poll::Ready(Ok(b.len()))
+    }
+    fn poll_flush(self: Pin<&mut Self>, _: &mut Context) -> Poll<io::Result<()>> {
+        Poll::Ready(Ok(()))
+    }
+    fn poll_close(self: Pin<&mut Self>, _: &mut Context) -> Poll<io::Result<()>> {
+        Poll::Ready(Ok(()))
+    }
+}
+fn never_called() -> impl for<'a, 'b> FnMut(&'a mut Request<'b, IdleReader, Sink>) -> BoxFuture<'a, io::Result<ExitStatus>> {
+    |_req| Box::pin(async { Ok(ExitStatus::SUCCESS) })
+}
+
 fn tok_run(a: &Args) -> Args {
     let maxc = argn(a, 0).max(1) as usize;
     let ops = arg(a, 1);
@@ -48,6 +78,8 @@ fn tok_run(a: &Args) -> Args {
     let mut futs: Vec<Option<TokFut>> = Vec::new();
     let mut toks: Vec<Option<Token>> = Vec::new();
     let mut kept: Vec<Option<TokFut>> = Vec::new();
+    let mut conns: Vec<Option<Pin<Box<dyn Future<Output = ()>>>>> = Vec::new();
+    let idle_counter = Arc::new(Count(AtomicUsize::new(0)));
     let mut counters: Vec<Arc<Count>> = Vec::new();
     let mut res: Args = Vec::new();
     let mut i = 0;
@@ -64,6 +96,7 @@ fn tok_run(a: &Args) -> Args {
                 let r = runners[x];
                 futs.push(Some(Box::pin(r.get_token())));
                 toks.push(None);
+                conns.push(None);
                 counters.push(Arc::new(Count(AtomicUsize::new(0))));
             },
             2 => {
@@ -82,9 +115,13 @@ fn tok_run(a: &Args) -> Args {
                     }
                 }
             },
-            3 => {
+            3 | 6 => {
+                // release token x, wherever it lives: in the caller's hands or inside its connection task
                 if let Some(t) = toks.get_mut(x) {
                     *t = None;
+                }
+                if let Some(c) = conns.get_mut(x) {
+                    *c = None;
                 }
             },
             4 => {
@@ -92,9 +129,18 @@ fn tok_run(a: &Args) -> Args {
                     *f = None;
                 }
             },
+            5 => {
+                if let Some(t) = toks.get_mut(x).and_then(Option::take) {
+                    let mut c: Pin<Box<dyn Future<Output = ()>>> = Box::pin(t.run(IdleReader, Sink, never_called()));
+                    let waker = Waker::from(idle_counter.clone());
+                    let mut cx = Context::from_waker(&waker);
+                    assert!(c.as_mut().poll(&mut cx).is_pending(), "an idle connection cannot finish");
+                    conns[x] = Some(c);
+                }
+            },
             _ => {},
         }
-        let live = toks.iter().filter(|t| t.is_some()).count() as u128;
+        let live = (toks.iter().filter(|t| t.is_some()).count() + conns.iter().filter(|c| c.is_some()).count()) as u128;
         assert!(live <= maxc as u128, "more live tokens than max_conns");
         let mut row = vec![live, ready];
         row.extend(counters.iter().map(|c| c.0.load(Ordering::SeqCst) as u128));
@@ -104,24 +150,53 @@ fn tok_run(a: &Args) -> Args {
     res
 }
 
+/// a waker that knows whether it is the one handed to the most recent poll
+struct Gen {
+    id: usize,
+    current: Arc<AtomicUsize>,
+    fresh: Arc<AtomicUsize>,
+    stale: Arc<AtomicUsize>,
+}
+impl Wake for Gen {
+    fn wake(self: Arc<Self>) {
+        self.wake_by_ref();
+    }
+    fn wake_by_ref(self: &Arc<Self>) {
+        if self.current.load(Ordering::SeqCst) == self.id {
+            self.fresh.fetch_add(1, Ordering::SeqCst);
+        } else {
+            self.stale.fetch_add(1, Ordering::SeqCst);
+        }
+    }
+}
+
 fn wg_run(a: &Args) -> Args {
     let n = argn(a, 0) as usize;
     let ops = arg(a, 1);
     let runner = config(64, n.max(1) + 1).async_runner();
-    let counter = Arc::new(Count(AtomicUsize::new(0)));
-    let waker = Waker::from(counter.clone());
-    let mut cx = Context::from_waker(&waker);
+    // every poll of the shutdown future gets a NEW waker (a future may be polled by different tasks / combinators);
+    // the wake-up owed after the last token drop must reach the waker of the most recent poll.  Wakes of older
+    // wakers are not counted (a wake-up that only reaches a stale waker is a lost wake-up).
+    let current = Arc::new(AtomicUsize::new(0));
+    let fresh = Arc::new(AtomicUsize::new(0));
+    let stale = Arc::new(AtomicUsize::new(0));
+    let mk = |id: usize| Waker::from(Arc::new(Gen { id, current: current.clone(), fresh: fresh.clone(), stale: stale.clone() }));
     let tokens: Arc<Mutex<Vec<Token>>> = Arc::new(Mutex::new(Vec::new()));
-    for _ in 0..n {
-        let fut = runner.get_token();
-        futures_util::pin_mut!(fut);
-        match fut.poll(&mut cx) {
-            Poll::Ready(t) => tokens.lock().expect("tokens").push(t),
-            Poll::Pending => panic!("token not available"),
+    {
+        let w0 = mk(0);
+        let mut cx = Context::from_waker(&w0);
+        for _ in 0..n {
+            let fut = runner.get_token();
+            futures_util::pin_mut!(fut);
+            match fut.poll(&mut cx) {
+                Poll::Ready(t) => tokens.lock().expect("tokens").push(t),
+                Poll::Pending => panic!("token not available"),
+            }
         }
     }
     let mut fut = Box::pin(runner.shutdown());
     let mut res: Args = Vec::new();
+    let mut next_id = 1usize;
     for &op in &ops {
         if op == 1 {
             tokens.lock().expect("tokens").pop();
@@ -139,6 +214,10 @@ fn wg_run(a: &Args) -> Args {
                     }
                 })));
             }
+            let waker = mk(next_id);
+            current.store(next_id, Ordering::SeqCst);
+            next_id += 1;
+            let mut cx = Context::from_waker(&waker);
             let r = fut.as_mut().poll(&mut cx);
             fastcgi_server::async_io::verif_set_wg_hook(None);
             if w == 4 {
@@ -146,7 +225,7 @@ fn wg_run(a: &Args) -> Args {
             }
             res.push(vec![
                 u128::from(r.is_ready()),
-                counter.0.load(Ordering::SeqCst) as u128,
+                fresh.load(Ordering::SeqCst) as u128,
                 tokens.lock().expect("tokens").len() as u128,
             ]);
             if r.is_ready() {
